@@ -302,7 +302,12 @@ class World:
                 elif z < 0.75 and got:
                     script['calls'].append(['setBody', r.choice(got), r.randrange(1000)])
                 elif z < 0.9:
-                    script['calls'].append(['write', h, r.randrange(1000)])
+                    # entity interface; sometimes with an entity that was fetched earlier and is outdated by now
+                    ripe = [x for x in self.stale_entities if x in own and self._outdated(x)]
+                    if ripe and r.random() < 0.35:
+                        script['calls'].append(['write', r.choice(ripe), r.randrange(1000), True])
+                    else:
+                        script['calls'].append(['write', h, r.randrange(1000), h in self.stale_entities and r.random() < 0.4])
                 else:
                     # write_entities: mostly homogeneous, sometimes a wrong-type / multi-state entity somewhere in the list
                     hs = [r.choice(own) for _ in range(r.choice([1, 2, 3]))] if own else []
@@ -321,8 +326,11 @@ class World:
                 if z < 0.3 and cds:
                     dh = r.choice(cds) if r.random() < 0.9 else r.choice(self.descr_handles())
                     explicit = r.random() < 0.5
+                    gone = sorted(x for x in self.mdib.context_states.handle_version_lookup if x not in chs)
                     if explicit:
-                        h = r.choice(chs) if (chs and r.random() < 0.2) else f'cs{self.new_n}'
+                        y = r.random()
+                        # the handle of an existing state (of any descriptor), of a deleted state, or a new one
+                        h = r.choice(chs) if (chs and y < 0.3) else r.choice(gone) if (gone and y < 0.6) else f'cs{self.new_n}'
                     else:
                         h = f'uuid{self.new_n}'
                     self.new_n += 1
@@ -563,8 +571,14 @@ class World:
                 self.mutate_state(st, call[2])
                 self.emit(f'setBody {H(call[1])} {self.sbody(st)}', 'ok')
             elif op == 'write':
+                ent = None
+                if len(call) > 3 and call[3] and m.descriptions.handle.get_one(call[1], allow_none=True) is not None:
+                    old_ent = self.stale_entities.get(call[1])
+                    if old_ent is not None and not old_ent.is_multi_state:
+                        ent = type(old_ent)(m, copy.deepcopy(old_ent.descriptor), copy.deepcopy(old_ent.state))
                 try:
-                    ent = m.entities.by_handle(call[1])
+                    if ent is None:
+                        ent = m.entities.by_handle(call[1])
                 except KeyError:
                     ent = None
                 if ent is None:
@@ -744,7 +758,9 @@ class World:
                     if how == 'drop' and ent.states:
                         ent.states.pop(sorted(ent.states)[0])
                     elif how == 'add':
-                        st = ent.new_state(f'cs{self.new_n}')
+                        gone = sorted(x for x in m.context_states.handle_version_lookup
+                                      if m.context_states.handle.get_one(x, allow_none=True) is None)
+                        st = ent.new_state(gone[n % len(gone)] if (gone and n % 5 < 2) else f'cs{self.new_n}')
                         self.new_n += 1
                         self.mutate_state(st, n)
                     for st in ent.states.values():
